@@ -306,7 +306,10 @@ class _rewrite_captured_vars(ast.NodeTransformer):
             return lm
         resolver = _rewrite_captured_vars(cv)
         resolver._resolving = self._resolving + [f]
-        return resolver.visit(lm)
+        resolved = resolver.visit(lm)
+        # Its body is not in the scope of the expression it is called from.
+        resolved._own_scope = True  # type: ignore
+        return resolved
 
     def visit_Attribute(self, node: ast.Attribute) -> Any:
         """If the value comes back as a class or other object that python
@@ -431,6 +434,14 @@ class _resolve_called_lambdas(ast.NodeTransformer):
             bound = self._bind_arguments(lambda_node, node)
             if bound is not None:
                 arg_map = {name: self.visit(value) for name, value in bound.items()}
+                if getattr(lambda_node, "_own_scope", False):
+                    # A captured function: names in its body never refer to the parameters of
+                    # the helpers or lambdas it happens to be called from.
+                    outer_scopes, self._arg_map_list = self._arg_map_list, []
+                    self._arg_map_list.append(arg_map)  # type: ignore
+                    result = self.visit(lambda_node.body)
+                    self._arg_map_list = outer_scopes
+                    return result
                 self._arg_map_list.append(arg_map)  # type: ignore
                 result = self.visit(lambda_node.body)
                 self._arg_map_list.pop()
